@@ -1,0 +1,159 @@
+//go:build verif
+
+// Contracts for the template engine's clone family (properties C17, C18), read by /verif/engine (govc).
+// Comments only: with or without the build tag this file adds no code to the package.
+package document
+
+// Every property-level clone returns a structurally equal copy (all fields of the Go type, XMLName excluded)
+// made only of objects allocated by the call, and writes nothing that existed before.
+
+//@ func (*TemplateEngine).cloneParagraphProperties
+//@ props C18, C17
+//@ modifies nothing
+//@ ensures deepcopy(result, source)
+//@ loop 1
+//@   invariant 0 <= #i && #i <= len(source.Tabs.Tabs) && unchangedHeap() && source != nil && source.Tabs != nil
+//@   invariant props != nil && fresh(props) && props.Tabs != nil && fresh(props.Tabs) && len(props.Tabs.Tabs) == len(source.Tabs.Tabs) && (len(props.Tabs.Tabs) == 0 || arr(props.Tabs.Tabs) >= old(allocBound()))
+//@   invariant forall k int :: 0 <= k && k < #i ==> deepcopy(props.Tabs.Tabs[k], source.Tabs.Tabs[k])
+//@   decreases len(source.Tabs.Tabs) - #i
+
+//@ func cloneParagraphBorderLine
+//@ props C18, C17
+//@ modifies nothing
+//@ ensures deepcopy(result, source)
+
+//@ func (*TemplateEngine).cloneRunProperties
+//@ props C18, C17
+//@ modifies nothing
+//@ ensures deepcopy(result, source)
+
+//@ func (*TemplateEngine).cloneTableProperties
+//@ props C18, C17
+//@ modifies nothing
+//@ ensures deepcopy(result, source)
+
+//@ func (*TemplateEngine).cloneTableBorders
+//@ props C18, C17
+//@ modifies nothing
+//@ ensures deepcopy(result, source)
+
+//@ func (*TemplateEngine).cloneTableCellMargins
+//@ props C18, C17
+//@ modifies nothing
+//@ ensures deepcopy(result, source)
+
+//@ func (*TemplateEngine).cloneTableGrid
+//@ props C18, C17
+//@ modifies nothing
+//@ ensures deepcopy(result, source)
+//@ loop 1
+//@   invariant 0 <= #i && #i <= len(source.Cols) && unchangedHeap() && source != nil
+//@   invariant grid != nil && fresh(grid) && len(grid.Cols) == len(source.Cols) && (len(grid.Cols) == 0 || arr(grid.Cols) >= old(allocBound()))
+//@   invariant forall k int :: 0 <= k && k < #i ==> deepcopy(grid.Cols[k], source.Cols[k])
+//@   decreases len(source.Cols) - #i
+
+//@ func (*TemplateEngine).cloneTableCellMarginsCell
+//@ props C18, C17
+//@ modifies nothing
+//@ ensures deepcopy(result, source)
+
+//@ func (*TemplateEngine).cloneTableCellBorders
+//@ props C18, C17
+//@ modifies nothing
+//@ ensures deepcopy(result, source)
+
+//@ func (*TemplateEngine).cloneTableRowProperties
+//@ props C18, C17
+//@ modifies nothing
+//@ ensures deepcopy(result, source)
+
+//@ func (*TemplateEngine).cloneTableCellProperties
+//@ props C18, C17
+//@ modifies nothing
+//@ ensures deepcopy(result, source)
+
+// refsNonNil: header/footer reference lists hold no nil entries (what the adders and the reader produce).
+//@ spec refsNonNil(s *SectionProperties) bool = (forall i int :: 0 <= i && i < len(s.HeaderReferences) ==> s.HeaderReferences[i] != nil) && (forall j int :: 0 <= j && j < len(s.FooterReferences) ==> s.FooterReferences[j] != nil)
+
+//@ func (*TemplateEngine).cloneSectionProperties
+//@ props C18, C17, C11
+//@ wf cell:*HeaderFooterReference, cell:*FooterReference
+//@ requires source == nil || refsNonNil(source)
+//@ modifies nothing
+//@ ensures deepcopy(result, source)
+//@ loop 1
+//@   invariant 0 <= #i && #i <= len(source.HeaderReferences) && unchangedHeap() && source != nil
+//@   invariant sectPr != nil && fresh(sectPr) && len(sectPr.HeaderReferences) == len(source.HeaderReferences) && (len(sectPr.HeaderReferences) == 0 || arr(sectPr.HeaderReferences) >= old(allocBound()))
+//@   invariant forall k int :: 0 <= k && k < #i ==> deepcopy(sectPr.HeaderReferences[k], source.HeaderReferences[k])
+//@   decreases len(source.HeaderReferences) - #i
+//@ loop 2
+//@   invariant 0 <= #i && #i <= len(source.FooterReferences) && unchangedHeap() && source != nil
+//@   invariant sectPr != nil && fresh(sectPr) && len(sectPr.FooterReferences) == len(source.FooterReferences) && (len(sectPr.FooterReferences) == 0 || arr(sectPr.FooterReferences) >= old(allocBound()))
+//@   invariant forall k int :: 0 <= k && k < #i ==> deepcopy(sectPr.FooterReferences[k], source.FooterReferences[k])
+//@   decreases len(source.FooterReferences) - #i
+
+// Known exception (KNOWN_FINDINGS.json, C17): the drawing of a picture run is shared between the template
+// document and every document rendered from it; cloneRun copies the pointer ("图像的深度复制比较复杂").
+// The deepcopy predicate therefore demands pointer equality, not a copy, for Run.Drawing everywhere.
+//@ deepcopy-shares Run.Drawing : cloneRun copies the *DrawingElement pointer; the picture object tree is shared with the template (known finding C17)
+
+//@ func (*TemplateEngine).cloneRun
+//@ props C18, C17
+//@ requires source != nil
+//@ modifies nothing
+//@ ensures deepcopy(result, source)
+
+//@ func (*TemplateEngine).cloneParagraph
+//@ props C18, C17
+//@ requires source != nil
+//@ modifies nothing
+//@ ensures deepcopy(result, source)
+//@ loop 1
+//@   invariant 0 <= #i && #i <= len(source.Runs) && unchangedHeap()
+//@   invariant newPara != nil && fresh(newPara) && deepcopy(newPara.Properties, source.Properties) && len(newPara.Runs) == len(source.Runs) && (len(newPara.Runs) == 0 || arr(newPara.Runs) >= old(allocBound()))
+//@   invariant forall k int :: 0 <= k && k < #i ==> deepcopy(newPara.Runs[k], source.Runs[k])
+//@   decreases len(source.Runs) - #i
+
+// Tables: cloneTable / cloneTableRow / cloneTableCell are mutually recursive (nested tables). Each is verified
+// against the contracts of the others; termination of the mutual recursion (it follows the nesting depth of
+// the finite source table) is NOT proved.
+//@ func (*TemplateEngine).cloneTableCell
+//@ props C18, C17
+//@ requires source != nil
+//@ modifies nothing
+//@ ensures deepcopy(result, source)
+//@ loop 1
+//@   invariant 0 <= #i && #i <= len(source.Paragraphs) && unchangedHeap()
+//@   invariant deepcopy(newCell.Properties, source.Properties) && len(newCell.Paragraphs) == len(source.Paragraphs) && (len(newCell.Paragraphs) == 0 || arr(newCell.Paragraphs) >= old(allocBound()))
+//@   invariant len(newCell.Tables) == len(source.Tables) && (len(newCell.Tables) == 0 || arr(newCell.Tables) >= old(allocBound()))
+//@   invariant forall k int :: 0 <= k && k < #i ==> deepcopy(newCell.Paragraphs[k], source.Paragraphs[k])
+//@   decreases len(source.Paragraphs) - #i
+//@ loop 2
+//@   invariant 0 <= #i && #i <= len(source.Tables) && unchangedHeap()
+//@   invariant deepcopy(newCell.Properties, source.Properties) && len(newCell.Paragraphs) == len(source.Paragraphs) && (len(newCell.Paragraphs) == 0 || arr(newCell.Paragraphs) >= old(allocBound()))
+//@   invariant len(newCell.Tables) == len(source.Tables) && (len(newCell.Tables) == 0 || arr(newCell.Tables) >= old(allocBound()))
+//@   invariant forall k int :: 0 <= k && k < len(source.Paragraphs) ==> deepcopy(newCell.Paragraphs[k], source.Paragraphs[k])
+//@   invariant forall k int :: 0 <= k && k < #i ==> deepcopy(newCell.Tables[k], source.Tables[k])
+//@   decreases len(source.Tables) - #i
+
+//@ func (*TemplateEngine).cloneTableRow
+//@ props C18, C17
+//@ requires source != nil
+//@ modifies nothing
+//@ ensures deepcopy(result, source)
+//@ loop 1
+//@   invariant 0 <= #i && #i <= len(source.Cells) && unchangedHeap()
+//@   invariant newRow != nil && fresh(newRow) && deepcopy(newRow.Properties, source.Properties) && len(newRow.Cells) == len(source.Cells) && (len(newRow.Cells) == 0 || arr(newRow.Cells) >= old(allocBound()))
+//@   invariant forall k int :: 0 <= k && k < #i ==> deepcopy(newRow.Cells[k], source.Cells[k])
+//@   decreases len(source.Cells) - #i
+
+//@ func (*TemplateEngine).cloneTable
+//@ props C18, C17
+//@ requires source != nil
+//@ modifies nothing
+//@ ensures deepcopy(result, source)
+//@ loop 1
+//@   invariant 0 <= #i && #i <= len(source.Rows) && unchangedHeap()
+//@   invariant newTable != nil && fresh(newTable) && deepcopy(newTable.Properties, source.Properties) && deepcopy(newTable.Grid, source.Grid) && len(newTable.Rows) == len(source.Rows) && (len(newTable.Rows) == 0 || arr(newTable.Rows) >= old(allocBound()))
+//@   invariant forall k int :: 0 <= k && k < #i ==> deepcopy(newTable.Rows[k], source.Rows[k])
+//@   decreases len(source.Rows) - #i
